@@ -223,8 +223,7 @@ Proof.
   - destruct (String.eqb eq "=") eqn:E; try discriminate. apply String.eqb_eq in E; subst.
     destruct rest as [|sep rest]; [constructor|].
     destruct (String.eqb sep ",") eqn:S; try discriminate. apply String.eqb_eq in S; subst.
-    constructor. eapply IH; [|exact H]. simpl in L. apply PeanoNat.lt_S_n in L.
-    eapply PeanoNat.Nat.lt_trans; [|exact L]. auto with arith.
+    constructor. eapply IH; [|exact H]. simpl in L. lia.
 Qed.
 
 Lemma env_separator_checked s r :
